@@ -71,6 +71,7 @@ structure GAssignIR where
   cls : Nat
   attr : Nat        -- user attribute index, or 1000 = breakweight
   value : Int
+  perGlyph : List (Nat × Int) := []   -- values that differ from glyph to glyph (an expression over glyph metrics)
 deriving Repr, Inhabited
 
 structure GAttrIR where
@@ -233,7 +234,14 @@ def parseProgIR (text : String) : Except String ProgIR := do
     let assigns ← (← (← gj.getObjVal? "assigns").getArr?).toList.mapM fun a => do
       pure ({ order := ← jNat (← a.getObjVal? "order"), line := ← jNat (← a.getObjVal? "line"),
               override := ← (← a.getObjVal? "override").getBool?, cls := ← jNat (← a.getObjVal? "cls"),
-              attr := ← jNat (← a.getObjVal? "attr"), value := ← (← a.getObjVal? "value").getInt? } : GAssignIR)
+              attr := ← jNat (← a.getObjVal? "attr"), value := ← (← a.getObjVal? "value").getInt?,
+              perGlyph := ← (do
+                let pj := a.getObjValD "perGlyph"
+                if pj.isNull then pure [] else
+                  (← pj.getArr?).toList.mapM fun q => do
+                    let t ← q.getArr?
+                    if t.size != 2 then throw "bad-input: perGlyph pair"
+                    pure (← jNat t[0]!, ← t[1]!.getInt?)) } : GAssignIR)
     pure (some ({ marker := ← jNat (← gj.getObjVal? "marker"), markerBase := ← (← gj.getObjVal? "markerBase").getInt?,
                   numAttrs := ← jNat (← gj.getObjVal? "numAttrs"),
                   spaceGlyphs := ← (← (← gj.getObjVal? "spaceGlyphs").getArr?).toList.mapM jNat,
